@@ -70,8 +70,8 @@ def benign_program(rnd, w, kinds, names=None, suffix_only_p=0.0, multi_dot=False
         "matching_cost": lambda r, ww: programs.p_matching_cost(
             r, ww, max_window=5, subpix=(1,) if ww["bands"] > 1 else (1, 2, 4)),
         "filter": lambda r, ww: programs.p_filter(r, ww, methods=("median", "bilateral")),
-        "multiscale": lambda r, ww: {"multiscale_method": "fixed_zoom_pyramid", "num_scales": 2, "scale_factor": 2,
-                                      "marge": r.choice([0, 1])},
+        "multiscale": lambda r, ww: {"multiscale_method": "fixed_zoom_pyramid", "num_scales": r.choice([2, 2, 3]),
+                                      "scale_factor": 2, "marge": r.choice([0, 1])},
     }
     return programs.build_program(rnd, w, list(kinds), names=names, overrides=ov, suffix_only_p=suffix_only_p,
                                   allow_multi_dot=multi_dot)
